@@ -669,3 +669,197 @@ def c05(M, ctx, check_liveness=True):
             if status == SUCCESS:
                 ctx.fail("C05:success-with-unserved-task")
     ctx.nontrivial = prj.time >= 1
+
+
+# ----------------------------------------------------------------------------------------------- C13
+def comp_tasks(M, ci):
+    return [i for i, ts in enumerate(M.spec["tasks"]) if ts.get("comp") == ci]
+
+
+def comp_parents(M, ci):
+    return [pi for pi, cs in enumerate(M.spec["comps"]) if ci in cs.get("children", [])]
+
+
+def c13(M, ctx):
+    nC, nP = len(M.comps), len(M.wps)
+
+    def nested(ci):
+        return bool(comp_parents(M, ci) or M.spec["comps"][ci].get("children"))
+
+    def q(ci):
+        # clause tags of nested components are qualified, so that a listed finding about nested products
+        # can never hide a violation on a flat product
+        return "nested:" if nested(ci) else ""
+
+    for st in M.obs.steps:
+        for ph in ("updated", "allocated", "recorded"):
+            if ph not in st:
+                continue
+            S = st[ph]
+            for ci in range(nC):
+                holders = [pi for pi in range(nP) if ci in S["wpplaced"][pi]]
+                if len(holders) > 1:
+                    ctx.fail("C13:%scomponent-at-two-workplaces" % q(ci))
+                if any(S["wpplaced"][pi].count(ci) > 1 for pi in range(nP)):
+                    ctx.fail("C13:%scomponent-listed-twice" % q(ci))
+                if S["cplaced"][ci] is None:
+                    if holders:
+                        ctx.fail("C13:%sworkplace-lists-unplaced-component" % q(ci))
+                elif holders != [S["cplaced"][ci]]:
+                    ctx.fail("C13:%scomponent-placed-but-not-listed" % q(ci))
+            for pi in range(nP):
+                top = [ci for ci in S["wpplaced"][pi] if not any(pp in S["wpplaced"][pi] for pp in comp_parents(M, ci))]
+                used = 0
+                for ci in top:
+                    used = used + M.comps[ci].space_size
+                if used > M.wps[pi].max_space_size:
+                    ctx.fail("C13:%scapacity-exceeded" % ("nested:" if any(nested(ci) for ci in S["wpplaced"][pi]) else ""))
+                if len(top) >= 2:
+                    ctx.cover("two-components-share-workplace")
+            if ph == "updated":
+                for ci in range(nC):
+                    if not comp_parents(M, ci):
+                        tids = comp_tasks(M, ci)
+                        if all(S["tstate"][i] == FINISHED for i in tids) and S["cplaced"][ci] is not None:
+                            ctx.fail("C13:%sfinished-component-still-placed" % q(ci))
+                        if tids and all(S["tstate"][i] == FINISHED for i in tids):
+                            ctx.cover("finished-component-released")
+    # placements made by the allocator; a *move* is a placement into a workplace other than the current one
+    loc = {}
+    for st in M.obs.steps:
+        for ci in range(nC):
+            loc[(st["t"], ci)] = st["updated"]["cplaced"][ci]
+    per_step = {}
+    for (t, ci, pi, tstates, tfac) in M.obs.moves:
+        before = loc.get((t, ci))
+        loc[(t, ci)] = pi
+        for ch in M.spec["comps"][ci].get("children", []):
+            loc[(t, ch)] = pi
+        if before == pi:
+            ctx.cover("re-placed-in-same-workplace")
+            continue
+        per_step[(t, ci)] = per_step.get((t, ci), 0) + 1
+        if any(tstates[i] == WORKING for i in comp_tasks(M, ci)):
+            ctx.fail("C13:%smoved-while-task-working" % q(ci))
+        if any(tfac[i] for i in comp_tasks(M, ci)):
+            ctx.cover("moved-after-task-got-facility")
+        for ch in M.spec["comps"][ci].get("children", []):
+            if any(tstates[i] == WORKING for i in comp_tasks(M, ch)):
+                ctx.fail("C13:nested:child-moved-while-its-task-working")
+    for (t, ci), cnt in per_step.items():
+        if cnt > 1:
+            # two placements inside one allocation pass are not observable at the property's observation points
+            # (per-step logs, live state at the phases); recorded as a cover goal, not as a violation
+            ctx.cover("placed-twice-inside-one-allocation-pass")
+    # at most one change of location per step, at the property's observation points
+    for st in M.obs.steps:
+        seq = [st[ph]["cplaced"] for ph in ("updated", "allocated", "performed", "recorded") if ph in st]
+        for ci in range(nC):
+            changes = sum(1 for a, b in zip(seq, seq[1:]) if a[ci] != b[ci])
+            if changes > 1:
+                ctx.fail("C13:%smoved-twice-in-one-step" % q(ci))
+    # conveyor rule and one move per step, from the placement logs
+    for ci, c in enumerate(M.comps):
+        rec = c.placed_workplace_id_record
+        for t in range(len(rec)):
+            cur = rec[t]
+            prv = rec[t - 1] if t > 0 else None
+            if cur is not None and cur != prv:
+                pi = int(cur[2:])
+                ins = M.spec["wps"][pi].get("inputs", [])
+                if ins:
+                    ctx.cover("entered-workplace-with-inputs")
+                    if prv is not None and int(prv[2:]) not in ins:
+                        ctx.fail("C13:%sentered-from-non-input-workplace" % q(ci))
+                if prv is not None:
+                    ctx.cover("moved-between-workplaces")
+    # logs two-way consistency
+    for pi, wp in enumerate(M.wps):
+        for t in range(len(wp.placed_component_id_record)):
+            for ci, c in enumerate(M.comps):
+                a = c.ID in wp.placed_component_id_record[t]
+                b = t < len(c.placed_workplace_id_record) and c.placed_workplace_id_record[t] == wp.ID
+                if a != b:
+                    ctx.fail("C13:%splacement-logs-disagree" % q(ci))
+    # a task only works with facilities of the workplace where its component is placed at that step
+    for ti, task in enumerate(M.tasks):
+        ts = tspec(M, ti)
+        if not ts.get("nf") or ts.get("comp") is None:
+            continue
+        crec = M.comps[ts["comp"]].placed_workplace_id_record
+        for t in range(len(task.allocated_facility_id_record)):
+            for fid in (task.allocated_facility_id_record[t] or []):
+                f = int(fid[1:])
+                ctx.cover("facility-used")
+                if crec[t] != "wp%d" % M.fwp[f]:
+                    ctx.fail("C13:%sfacility-of-workplace-where-component-is-not-placed" % q(ts["comp"]))
+    ctx.nontrivial = any(r is not None for c in M.comps for r in c.placed_workplace_id_record)
+
+
+# ----------------------------------------------------------------------------------------------- C12
+def pert_reference(n, edges, rem, t):
+    """Independent critical-path computation for a finish-to-start network (index order is topological)."""
+    est = [t] * n
+    eft = [None] * n
+    for i in range(n):
+        e = t
+        for (a, b, _) in edges:
+            if b == i:
+                cand = est[a] + rem[a]
+                if cand > e:
+                    e = cand
+        est[i] = e
+        eft[i] = e + rem[i]
+    cpl = eft[0]
+    for i in range(1, n):
+        if eft[i] > cpl:
+            cpl = eft[i]
+    lft = [None] * n
+    lst = [None] * n
+    for i in reversed(range(n)):
+        succ = [b for (a, b, _) in edges if a == i]
+        if not succ:
+            lf = cpl
+        else:
+            lf = lst[succ[0]]
+            for s in succ[1:]:
+                if lst[s] < lf:
+                    lf = lst[s]
+        lft[i] = lf
+        lst[i] = lf - rem[i]
+    return est, eft, lst, lft, cpl
+
+
+def c12_check(ctx, n, edges, rem, t, pert, cpl, where):
+    est, eft, lst, lft, rcpl = pert_reference(n, edges, rem, t)
+    if cpl != rcpl:
+        ctx.fail("C12:%s:critical-path-length" % where)
+    zero_slack = False
+    for i in range(n):
+        g_est, g_eft, g_lst, g_lft = pert[i]
+        if g_est != est[i]:
+            ctx.fail("C12:%s:est" % where)
+        if g_eft != eft[i]:
+            ctx.fail("C12:%s:eft" % where)
+        if g_lft != lft[i]:
+            ctx.fail("C12:%s:lft" % where)
+        if g_lst != lst[i]:
+            ctx.fail("C12:%s:lst" % where)
+        if g_lst - g_est < 0:
+            ctx.fail("C12:%s:negative-slack" % where)
+        if g_lst - g_est == 0:
+            zero_slack = True
+    if n and not zero_slack:
+        ctx.fail("C12:%s:no-critical-task" % where)
+
+
+def c12(M, ctx):
+    n = len(M.tasks)
+    if any(k != 0 for (_, _, k) in M.edges):
+        return
+    for st in M.obs.steps:
+        U = st["updated"]
+        c12_check(ctx, n, M.edges, U["rem"], st["t"], U["pert"], U["cpl"], "step0" if st["t"] == 0 else "later-step")
+        if st["t"] > 0:
+            ctx.cover("pert-at-later-step")
+    ctx.nontrivial = len(M.obs.steps) >= 2 and len(M.edges) >= 1
